@@ -119,6 +119,7 @@ static RunResult execute_once(const Json &plan, std::vector<std::string> *log = 
                 cpu_cold_start();
                 cpu_window_open(&win);
                 COUNT("cpu.swarm_runs");
+                g_cnt.m[strf("cpucfg.%08x.%08x.%08x.%02x.%d", win.cpu.l1_ecx, win.cpu.l7_ebx, win.cpu.l7_ecx, win.cpu.xcr0, win.cpu.l1_eax == 0x000406d8)]++;
         }
         p->exec(plan, rr, h);
         if (swarm_cpu) {
